@@ -7,3 +7,15 @@
 (assert (forall ((a O_time_Time)) (not (after a a))))
 (assert (forall ((a O_time_Time) (b O_time_Time) (c O_time_Time)) (=> (and (after a b) (after b c)) (after a c))))
 (assert (forall ((a O_time_Time) (b O_time_Time)) (=> (after a b) (not (after b a)))))
+; calendar: dates of the form YYYY-MM-DD read at midnight in a location; AddDate is calendar addition
+(declare-fun isDate (String) Bool)
+(declare-fun civil (String Int) O_time_Time)
+(declare-fun yearOf (O_time_Time) Int)
+(assert (forall ((s String) (l Int)) (=> (isDate s) (and (<= 0 (yearOf (civil s l))) (<= (yearOf (civil s l)) 9999)))))
+; the duration grammar of duration.json: ^(([0-9]+)y)?(([0-9]+)m)?(([0-9]+)d)?$ ; groups 2, 4, 6 are the digit runs
+(declare-fun isDuration (String) Bool)
+(declare-fun durY (String) String) (declare-fun durM (String) String) (declare-fun durD (String) String)
+(declare-fun isInt (String) Bool)          ; decimal text that fits into an int
+(declare-fun intval (String) Int)
+(define-fun ival ((s String)) Int (ite (= s "") 0 (intval s)))
+(assert (not (isInt "")))
